@@ -224,7 +224,7 @@ func fieldMutations(fd protoreflect.FieldDescriptor, tier string) []mutation {
 				}
 			})
 		case protoreflect.StringKind:
-			for _, s := range []string{"", "nokey", strings.Repeat("K", 70000)} {
+			for _, s := range []string{"", "nokey", strings.Repeat("K", 65535), strings.Repeat("K", 65536), strings.Repeat("K", 70000)} {
 				s := s
 				add(fmt.Sprintf("[%.8q..%d]", s, len(s)), func(m protoreflect.Message) {
 					l := m.Mutable(fd).List()
@@ -247,7 +247,7 @@ func fieldMutations(fd protoreflect.FieldDescriptor, tier string) []mutation {
 		if name == "SwampName" || name == "SwampPattern" {
 			vals = []string{"", "ab", "a/b", "a//", "//", "*", "*/*/*", "c26p/r/missing", "c26m/r/missing", "a/b/c/d", strings.Repeat("n", 300) + "/r/s"}
 		} else if name == "Key" {
-			vals = []string{"", "nokey", strings.Repeat("K", 70000)}
+			vals = []string{"", "nokey", strings.Repeat("K", 65535), strings.Repeat("K", 65536), strings.Repeat("K", 70000)}
 		}
 		for _, s := range vals {
 			s := s
@@ -377,27 +377,36 @@ func shapeOf(method string, req proto.Message) (h, swampName, keys string, kvnil
 	return
 }
 
-// wkeyEmpty: a treasure key that the request would write is "".
+// maxKey is the longest treasure key the storage format holds (16-bit key length of the V2 file).
+const maxKey = 65535
+
+// wkeyEmpty / wkeyLong: a treasure key that the request would write is "" / longer than maxKey.
 func wkeyEmpty(method string, req proto.Message) bool {
+	return wkeyIs(method, req, func(k string) bool { return k == "" })
+}
+func wkeyLong(method string, req proto.Message) bool {
+	return wkeyIs(method, req, func(k string) bool { return len(k) > maxKey })
+}
+func wkeyIs(method string, req proto.Message, bad func(string) bool) bool {
 	switch r := req.(type) {
 	case *hydrapb.SetRequest:
 		if len(r.Swamps) == 1 && r.Swamps[0] != nil {
 			for _, kv := range r.Swamps[0].KeyValues {
-				if kv.GetKey() == "" {
+				if bad(kv.GetKey()) {
 					return true
 				}
 			}
 		}
 	case *hydrapb.AddToUint32SlicePushRequest:
 		for _, p := range r.KeySlicePairs {
-			if p.GetKey() == "" {
+			if bad(p.GetKey()) {
 				return true
 			}
 		}
 	default:
 		if incMethods[method] {
 			rm := req.ProtoReflect()
-			return rm.Get(rm.Descriptor().Fields().ByName("Key")).String() == ""
+			return bad(rm.Get(rm.Descriptor().Fields().ByName("Key")).String())
 		}
 	}
 	return false
@@ -573,18 +582,6 @@ func child(resultPath, root, tier string, only int) {
 				}
 				vs = keep
 			}
-			if pass == 0 {
-				// oversized keys go to the in-memory swamp and to the dedicated swamp "big" only: storing
-				// one makes a persistent swamp unloadable (the storage writer's defect, C01), which would
-				// mask every other reload check of this swamp
-				var keep []variant
-				for _, v := range vs {
-					if !strings.Contains(v.name, "..70000") {
-						keep = append(keep, v)
-					}
-				}
-				vs = keep
-			}
 			if streaming && (strings.HasPrefix(method, "Subscribe")) && len(vs) > 12 {
 				vs = vs[:12] // these block until their context ends
 			}
@@ -628,7 +625,7 @@ func child(resultPath, root, tier string, only int) {
 						}
 					}
 					rec.Handler = h
-					rec.Shape = fmt.Sprintf("(SH %s %s %s %s %s %s %s %s)", nshape(swName), common.Bool(exists), keys, common.Bool(kvnil), common.Bool(by0), common.Bool(ke), common.Bool(ie), common.Bool(wkeyEmpty(method, v.req)))
+					rec.Shape = fmt.Sprintf("(SH %s %s %s %s %s %s %s %s %s)", nshape(swName), common.Bool(exists), keys, common.Bool(kvnil), common.Bool(by0), common.Bool(ke), common.Bool(ie), common.Bool(wkeyEmpty(method, v.req)), common.Bool(wkeyLong(method, v.req)))
 				}
 				emit(rec)
 				before := atomic.LoadInt64(&panics)
@@ -697,7 +694,11 @@ func child(resultPath, root, tier string, only int) {
 		_, err := s.GW.Set(context.Background(), &hydrapb.SetRequest{Swamps: []*hydrapb.SwampRequest{{IslandID: 1, SwampName: big, CreateIfNotExist: true, Overwrite: true,
 			KeyValues: []*hydrapb.KeyValuePair{{Key: "small", Int64Val: &one}, {Key: strings.Repeat("K", 70000), Int64Val: &one}}}}})
 		if err == nil {
+			// acknowledged: then it has to survive the restart (reload check below)
 			touched[big] = "Set with a 70000-byte key"
+			emit(record{Idx: -3, Method: "OversizedKey", Variant: big, Phase: "done", Note: "a Set with a 70000-byte key was acknowledged"})
+		} else {
+			emit(record{Idx: -3, Method: "OversizedKey", Variant: big, Phase: "done", Code: int(status.Code(err))})
 		}
 	}
 	// counts before shutdown
@@ -847,7 +848,7 @@ func main() {
 	for _, i := range order {
 		r := byIdx[i]
 		h := "None"
-		sh := "(SH NOk false KOk false false false false false)"
+		sh := "(SH NOk false KOk false false false false false false)"
 		if r.Handler != "" {
 			h = "(Some " + r.Handler + ")"
 			sh = r.Shape
@@ -887,15 +888,22 @@ func main() {
 		if len(tail) > 1500 {
 			tail = tail[:1500]
 		}
-		idx := run.Add("(VC None (SH NOk false KOk false false false false false) false 0%Z 0%Z false 0%Z 0%Z)", map[string]interface{}{"crash": what, "child_output": string(tail)}, true)
+		idx := run.Add("(VC None (SH NOk false KOk false false false false false false) false 0%Z 0%Z false 0%Z 0%Z)", map[string]interface{}{"crash": what, "child_output": string(tail)}, true)
 		run.Violate(idx, "never crashes the process", sig, what)
 	}
 	for _, r := range recs {
 		if r.Method == "GracefulStop" || r.Method == "GracefulStop2" {
 			run.Hist("graceful-stop")
 			if r.Hang {
-				idx := run.Add("(VC None (SH NOk false KOk false false false false false) false 0%Z 0%Z false 0%Z 0%Z)", map[string]interface{}{"stop": "did not complete in 60 s"}, true)
+				idx := run.Add("(VC None (SH NOk false KOk false false false false false false) false 0%Z 0%Z false 0%Z 0%Z)", map[string]interface{}{"stop": "did not complete in 60 s"}, true)
 				run.Violate(idx, "never leaves the server unable to shut down", "graceful_stop_does_not_complete", "GracefulStop did not complete within 60 s after the generated requests")
+			}
+		}
+		if r.Method == "OversizedKey" {
+			run.Hist("oversized-key-probe")
+			if r.Note != "" || r.Code != 3 {
+				idx := run.Add("(VC None (SH NOk false KOk false false false false false false) false 0%Z 0%Z false 0%Z 0%Z)", map[string]interface{}{"swamp": r.Variant, "code": r.Code, "note": r.Note}, true)
+				run.Violate(idx, "oversized keys are rejected", "oversized_key_acknowledged", fmt.Sprintf("Set with a 70000-byte key on %s: code %d %s (expected InvalidArgument)", r.Variant, r.Code, r.Note))
 			}
 		}
 		if r.Method == "Reload" {
@@ -907,7 +915,7 @@ func main() {
 				} else if strings.Contains(r.Note, "Swamp does not exist") {
 					sig = "swamp_file_never_written_records_lost_at_shutdown"
 				}
-				idx := run.Add("(VC None (SH NOk false KOk false false false false false) false 0%Z 0%Z false 0%Z 0%Z)", map[string]interface{}{"swamp": r.Variant, "last_request_on_it": r.Req, "reload": r.Note, "hang": r.Hang, "panics": r.Panics}, true)
+				idx := run.Add("(VC None (SH NOk false KOk false false false false false false) false 0%Z 0%Z false 0%Z 0%Z)", map[string]interface{}{"swamp": r.Variant, "last_request_on_it": r.Req, "reload": r.Note, "hang": r.Hang, "panics": r.Panics}, true)
 				run.Violate(idx, "never corrupts stored data", sig, fmt.Sprintf("swamp %s (touched by: %s) after restart: %s (hang=%v panics=%d)", r.Variant, r.Req, r.Note, r.Hang, r.Panics))
 			}
 		}
